@@ -264,6 +264,68 @@ theorem corner_angles_bridge (vs : List V3) (faces : List Face) :
     change ((faces.flatMap (faceCornerCS vs))[j]?).getD (0, 1) = _
     rw [this]; rfl
 
+/-! ## cotangent: both branches -/
+
+/-- `cotangent`, direct branch (no cached `angles`): `cot[3i], cot[3i+1], cot[3i+2] = cotan(pC,pA,pB), cotan(pA,pB,pC), cotan(pB,pC,pA)`:
+the attribute is the concatenation of the model's `triCotanCS` of the faces -/
+theorem cotangent_bridge (vs : List V3) (faces : List Face) (angles : Attr (Rat × Rat)) :
+    tab (C07Src.cotangent vs faces false angles) (3 * faces.length) = faces.flatMap (triCotanCS vs) := by
+  unfold C07Src.cotangent
+  simp only [Bool.false_eq_true, if_false, cotan_bridge]
+  apply List.ext_getElem?
+  intro j
+  rw [flatMap3_get (triCotanCS vs) (fun f => by simp [triCotanCS, cotanArgs])]
+  by_cases hj : j / 3 < faces.length
+  · have hj3 : j < 3 * faces.length := by omega
+    simp only [tab, List.getElem?_map, List.getElem?_range hj3, Option.map_some, List.getElem?_eq_getElem hj, Option.bind_some]
+    rw [forEnum_block_get 3 _ (by intro a i x k; simp only [wr]; split_ifs <;> first | rfl | omega) _ _ j hj]
+    have h3 : j % 3 = 0 ∨ j % 3 = 1 ∨ j % 3 = 2 := by omega
+    simp only [wr, triCotanCS, cotanArgs, List.map_cons, List.map_nil]
+    rcases h3 with h | h | h <;> rw [h] <;> split_ifs <;> first | rfl | omega
+  · have hj3 : ¬ j < 3 * faces.length := by omega
+    have hn : faces[j / 3]? = none := by rw [List.getElem?_eq_none]; omega
+    rw [hn]
+    simp [tab, hj3]
+
+/-- `cotangent` when the corner angles are cached: `cot[c] = -tan(angles[c] + pi/2) = cot(angles[c])`, the same `(cross², dot)` pair -/
+theorem cotangent_from_angles (vs : List V3) (faces : List Face) (angles : Attr (Rat × Rat)) (c : Nat) (hc : c < (cornerVerts faces).length) :
+    C07Src.cotangent vs faces true angles c = angles c := by
+  unfold C07Src.cotangent
+  simp only [if_true]
+  rw [forRange_local_at _ (by intro a i; local_body)]
+  simp [hc, wr_same]
+
+/-- hence, with the angles the translated `corner_angles` computes, both branches of `cotangent` give the same pairs on a triangle mesh
+(`faceCornerCS = triCotanCS` on triangles: `triCotanCS_eq_faceCornerCS` in Props/C07) -/
+theorem cotangent_branches_agree (vs : List V3) (faces : List Face) (angles : Attr (Rat × Rat)) :
+    tab (C07Src.cotangent vs faces true angles) (cornerVerts faces).length = tab angles (cornerVerts faces).length := by
+  unfold tab
+  apply List.map_congr_left
+  intro c hc
+  exact cotangent_from_angles vs faces angles c (List.mem_range.mp hc)
+
+/-! ## angle_defects: whole body (default `2*pi`, border loop, skip guard, corner loop) -/
+
+/-- `angle_defects` as read from the source: vertex `v` starts at `2*pi` (the attribute default of all three constructions), a border vertex
+is reset to `0` (`zero_border`) or `pi`, then every corner of the vertex - in increasing corner order - subtracts its angle unless the vertex
+is on the border and `zero_border` is set: exactly the model's `angleDefectStruct` (multiple of `pi`, list of subtracted corners) -/
+theorem angle_defects_bridge (vs : List V3) (faces : List Face) (zb : Bool) (v : Nat) (hv : v < vs.length) :
+    C07Src.angle_defects vs faces zb v = angleDefectStruct faces zb v := by
+  unfold C07Src.angle_defects angleDefectStruct
+  simp only [forEnum]
+  rw [corner_scatter_append (fun w => isBorderVertex faces w && zb), forEach_wr_const, zipIdx_positions]
+  have hmem : v ∈ boundaryVertices faces vs.length ↔ isBorderVertex faces v = true := by
+    simp [boundaryVertices, hv]
+  by_cases hb : isBorderVertex faces v = true
+  · have := hmem.mpr hb
+    cases zb <;> simp [hb, this]
+  · have hb' : isBorderVertex faces v = false := by simpa using hb
+    have : v ∉ boundaryVertices faces vs.length := fun h => hb (hmem.mp h)
+    simp [hb', this]
+
+/-- the default value is part of the translated site: the header of `angle_defects` is `vertices`, one float, default `2*pi` -/
+theorem angle_defects_header : ("angle_defects", "vertices", "float", "1", 2) ∈ C07Src.headers := by decide
+
 /-! ## interpolate.py (whole bodies; values and weights are arbitrary rational attributes) -/
 
 /-- `scatter_vertices_to_corners`: corner `c` receives the value of its vertex -/
